@@ -84,11 +84,62 @@ type callSite struct {
 }
 
 var (
-	fset  = token.NewFileSet()
-	funcs = map[string]*funcInfo{}
-	gos   []string
-	notes []string
+	fset   = token.NewFileSet()
+	funcs  = map[string]*funcInfo{}
+	gos    []string
+	notes  []string
+	clocks []string // "function -> what it asks the clock": wall-clock reads, timers, tickers, I/O deadlines
 )
+
+// wall-clock dependent entry points of package time
+var wallClock = map[string]bool{"Now": true, "Since": true, "Until": true, "After": true, "AfterFunc": true, "NewTimer": true,
+	"NewTicker": true, "Tick": true, "Sleep": true}
+
+// clockScan lists, for every function of the package, the calls that make its behaviour depend on time: package time's
+// wall-clock functions, anything of the repository's own pkg/clock, and SetDeadline / SetReadDeadline / SetWriteDeadline
+// on any value.  The Gallina models of the listener, the parser and the mapper take no time input; ClockFree.v requires
+// that this table agrees.
+func clockScan(pkg *types.Package, info *types.Info, files []*ast.File) {
+	for _, f := range files {
+		for _, decl := range f.Decls {
+			fd, ok := decl.(*ast.FuncDecl)
+			if !ok || fd.Body == nil {
+				continue
+			}
+			name := funcName(pkg, fd, info)
+			ast.Inspect(fd.Body, func(n ast.Node) bool {
+				call, ok := n.(*ast.CallExpr)
+				if !ok {
+					return true
+				}
+				var id *ast.Ident
+				switch fun := call.Fun.(type) {
+				case *ast.SelectorExpr:
+					id = fun.Sel
+				case *ast.Ident:
+					id = fun
+				}
+				if id == nil {
+					return true
+				}
+				fn, ok := info.Uses[id].(*types.Func)
+				if !ok || fn.Pkg() == nil {
+					return true
+				}
+				path := fn.Pkg().Path()
+				switch {
+				case path == "time" && wallClock[fn.Name()] && fn.Type().(*types.Signature).Recv() == nil:
+					clocks = append(clocks, name+" -> time."+fn.Name())
+				case path == module+"/pkg/clock" && relPkg(pkg) != "pkg/clock":
+					clocks = append(clocks, name+" -> clock."+fn.Name())
+				case strings.HasSuffix(fn.Name(), "Deadline") && fn.Type().(*types.Signature).Recv() != nil:
+					clocks = append(clocks, name+" -> "+fn.Name())
+				}
+				return true
+			})
+		}
+	}
+}
 
 func relPos(p token.Pos) string {
 	pos := fset.Position(p)
@@ -648,6 +699,7 @@ func main() {
 			fmt.Fprintln(os.Stderr, "cannot load", d, err)
 			os.Exit(1)
 		}
+		clockScan(pkg, info, files)
 		for _, f := range files {
 			for _, decl := range f.Decls {
 				fd, ok := decl.(*ast.FuncDecl)
@@ -660,6 +712,12 @@ func main() {
 				}
 				funcs[fi.name] = fi
 			}
+		}
+	}
+	for _, d := range []string{"pkg/mapper/fsm", "pkg/clock", "pkg/address", "pkg/metrics", "pkg/mappercache"} {
+		// clock use only: these packages hold no tracked state
+		if pkg, info, files, err := loadPackage(filepath.Join(repo, d), imp); err == nil && pkg != nil {
+			clockScan(pkg, info, files)
 		}
 	}
 	var names []string
@@ -749,6 +807,17 @@ func main() {
 		grows = append(grows, "  ("+coqStr(p[0])+", "+coqStr(p[1])+")")
 	}
 	sb.WriteString(strings.Join(grows, ";\n"))
+	sb.WriteString("\n].\n\n(* calls that make a function depend on time: (function, what it asks the clock) *)\nDefinition clock_table : list (string * string) := [\n")
+	sort.Strings(clocks)
+	var crows []string
+	for i, g := range clocks {
+		if i > 0 && clocks[i-1] == g {
+			continue
+		}
+		p := strings.SplitN(g, " -> ", 2)
+		crows = append(crows, "  ("+coqStr(p[0])+", "+coqStr(p[1])+")")
+	}
+	sb.WriteString(strings.Join(crows, ";\n"))
 	sb.WriteString("\n].\n\n(* translator notes (unknown external methods are treated as writes) *)\nDefinition translator_notes : list string := [\n")
 	sort.Strings(notes)
 	var nrows []string
